@@ -259,16 +259,32 @@ def line_obligations(ctx):
         return farr([parse_float(I2, t) for t in toks])
     Iv = ctx.interp(models={"numpy.fromstring": _MF("numpy.fromstring(sep=' ') parses blank-separated decimals", fromstring)})
 
+    def poscar_fb():
+        r_ = poscar_replay({})
+        return None if not r_["reproduced"] else {"input": r_["native_inputs"], "observed": r_["observed"]}
+
     def ob_poscar_line():
-        fmt_nodes = [n for n in ast.walk(f_poscar.node) if isinstance(n, ast.JoinedStr) and "12.8f" in ast.unparse(n)
-                     and [ast.unparse(v.value) for v in n.values if isinstance(v, ast.FormattedValue)] == ["x", "y", "z"]]
-        if len(fmt_nodes) != 2:
-            raise Unsupported("the two 12.8f f-strings (lattice rows, coordinates) were not found in poscar_string")
-        from pyvc.symex import Frame
+        # the number rows are located by what they are, not by what their variables are called: every f-string of the module (poscar_string
+        # and the helpers next to it) that renders exactly three simple names with a fixed-point format and blanks between them
         vmod = source.load_module("chmpy.ext.vasp")
-        for which, node in zip(("lattice_row", "coordinate_row"), fmt_nodes):
+        fmt_nodes = []
+        for n in ast.walk(vmod.tree):
+            if not isinstance(n, ast.JoinedStr):
+                continue
+            fv = [v for v in n.values if isinstance(v, ast.FormattedValue)]
+            if len(fv) == 3 and all(isinstance(v.value, ast.Name) and v.format_spec is not None and len(v.format_spec.values) == 1 and isinstance(v.format_spec.values[0], ast.Constant)
+                                    and str(v.format_spec.values[0].value).endswith("f") for v in fv) \
+                    and len({v.value.id for v in fv}) == 3:
+                fmt_nodes.append((n, [v.value.id for v in fv]))
+        if not fmt_nodes:
+            ctx.pattern("ext.vasp.poscar_string/ensures/row_roundtrip", False, fallback=poscar_fb, fn=f_poscar,
+                        clause="rows of three numbers written by poscar_string parse back in order (f-string not recognised: decided on the real writer and reader)")
+            return
+        from pyvc.symex import Frame
+        names = ("lattice_row", "coordinate_row") if len(fmt_nodes) == 2 else tuple(f"number_row{k}" for k in range(len(fmt_nodes)))
+        for which, (node, ids) in zip(names, fmt_nodes):
             Iv.pc, Iv.decisions, Iv.dpos, Iv.new_alts, Iv.cur_safety, Iv.fresh_count, Iv.depth, Iv.no_fork = [z3.And(v > -1000, v < 1000) for v in (x, y, zc)], [], 0, [], [], 0, 1, 0
-            fr = Frame(vmod, {"x": x, "y": y, "z": zc}, None)
+            fr = Frame(vmod, dict(zip(ids, (x, y, zc))), None)
             line = Iv.eval(node, fr)
             arr = fromstring(Iv, SStr.concat([line, " ", line]))
             cells = arr.flat()
@@ -283,9 +299,6 @@ def line_obligations(ctx):
     # F: POSCAR element blocks: atoms sorted by atomic number, Counter keys in first-occurrence order == block order
     src = ast.unparse(f_poscar.node)
     ok = ("ordering = np.argsort(elements)" in src and "coord = pos[ordering]" in src and "elements = elements[ordering]" in src and "element_counts = Counter(elements)" in src)
-    def poscar_fb():
-        r_ = poscar_replay({})
-        return None if not r_["reproduced"] else {"input": r_["native_inputs"], "observed": r_["observed"]}
     ctx.pattern("ext.vasp.poscar_string/element_blocks", ok, fallback=poscar_fb, clause="coordinates and elements are permuted by the same argsort; the counts line lists the sorted elements' multiplicities in block order",
                fn=f_poscar)
 
